@@ -54,7 +54,7 @@ CLAIMED['C14'] = dict(
     text='Kernel-checked: read_size_exact (prediction = 1 + encoded normal response for FC 1-4, 23, every context and quantity, via the C04 '
          'refinement), expected_adu_exact (the ADU length the client computes = the length of the frame the server builds, RTU/ASCII/binary), '
          'write_size_exact, diag_size_exact (every FC 8 sub-function class), exception_size; exhaustive run over all quantities '
-         'through the real server path and through a stub-transport client for RTU/ASCII/binary/TLS/socket framings; client histories (silent unit, local echo, retries answered by exception replies) must ask the port for exactly the bytes that arrive.',
+         'through the real server path and through a stub-transport client for RTU/ASCII/binary/TLS/socket framings; client histories (silent unit, local echo, retries answered by exception replies) must ask the port for exactly the bytes that arrive; the REAL ModbusSerialClient is run on a fake port with virtual time where the reply arrives whole or in two bursts.',
     design='6/C14', technique='Lean 4 arithmetic proof over the C04 refinement + exhaustive differential run',
     note='Per-framing overhead is checked on the real framers by the harness (transport stub returns exactly the bytes asked).')
 
@@ -219,11 +219,15 @@ CLAIMED['C15'] = dict(
          'operation: client-lock acquire, connect check, connect open, manager-lock acquire, tid++, connect, flush of the input, each '
          'of the two writes of a frame, every poll, each recv, process, both releases), a client that is connected OR NOT when the '
          'threads start, ANY fate of the connection attempts (the k-th create_connection accepted or refused) and ANY set of LOST '
-         'replies (the peer stays silent for a request: short read, connection closed, re-opened by the next call); requests may be '
+         'transmissions (Req.lost = n: the peer stays silent for the first n transmissions of a request: short read, connection '
+         'closed) and ANY retry configuration of the client (Cfg: retries k >= 0, retry_on_empty, back-off or not): after a '
+         'transmission that got nothing the retry loop backs off (a yield point: any thread may run; BOTH locks stay held - '
+         'backoff_holds_both_locks), reconnects and transmits again, at most k+1 times; requests may be '
          'BROADCASTS (written under both locks, nothing read, no unit answers, result = the marker); with the lock '
          'discipline a parameter of the model. Under the shipped discipline (client lock around connect + transaction, manager lock '
          'nested): C15_full = Serialised (mutual_exclusion; frames_contiguous; caller_gets_its_due: every caller gets the reply built '
-         'for its own request - its transaction id, unit and data - or, only when its own reply was lost, its own error object, or, '
+         'for its own request - its transaction id, unit and data, from whichever transmission got an answer - or, only when ALL its '
+         'transmissions were lost (attempts <= lost), its own error object, or, '
          'only when a connection attempt was refused, the connection exception, or, for a broadcast, the broadcast marker; never a '
          'foreign reply; a broadcast frame never lands between another caller\'s send and the end of its receive) and NeverStuck (no_deadlock; '
          'fair_schedule_finishes: k rounds each giving every thread a turn, k >= total operations, end with every thread finished and '
@@ -231,21 +235,28 @@ CLAIMED['C15'] = dict(
          'finished_all_answered, socket_replaced_only_when_idle (a socket is installed only while no transaction is in flight), '
          'socket_is_newest_connection, every_move_is_progress, reentrant_acquire_never_blocks; by induction over the schedule with the '
          'invariant "holder of the client lock = the only thread inside execute and the newest connection is exactly where its '
-         'transaction left it". generated_lock_scope: the source, read by ast on every run, has that discipline at both lock sites. '
-         'Named mutants without the property: broadcastOutside_counterexample / _not_serialised (a broadcast written after the client '
+         'transaction left it". generated_lock_scope: the source, read by ast on every run, has that discipline at both lock sites; '
+         'generated_backoff_keeps_locks: OBSERVED on every run (one real retried transaction, locks instrumented from their birth): '
+         'neither lock is released between two transmissions. '
+         'Named mutants without the property: backoff_release_counterexample / releaseClientLockInBackoff_deadlocks (the back-off '
+         'waits on a condition of the client lock, keeping the manager lock: a second caller takes the client lock and parks on the '
+         'manager lock, the first cannot get the client lock back; seeded C15-10; backoff_release_repaired), broadcastOutside_counterexample / _not_serialised (a broadcast written after the client '
          'lock is given back: seeded C15-04), lockOnlyWhenCold_counterexample / _not_serialised (client lock only when no socket is '
          'seen: after a lost reply the reconnect inside _transact races with the locked connect; seeded C15-03), '
          'lock_leak_counterexample / leakOnFail_deadlocks (seeded C15-02), connect_race_counterexample / connectOutside_not_serialised '
          '(code before the repair of connect-outside-lock), none / perKey / perKey_foreign_reply / sendOnly counterexamples. Real '
-         'threads on the real ModbusTcpClient (in-memory socket/select/time, scripted connection refusals, lost replies and broadcasts, both locks '
-         'instrumented from outside) run under a deterministic cooperative scheduler for all schedules of 2..4 threads x 1..3 '
+         'threads on the real ModbusTcpClient (in-memory socket/select/time, scripted connection refusals, lost replies, broadcasts and '
+         'retrying clients whose back-off sleep is a yield point; both locks instrumented at birth and from outside; a thread that stops '
+         'reaching yield points for 3 s is reported as a deadlock) run under a deterministic cooperative scheduler for all schedules of 2..4 threads x 1..3 '
          'transactions (DFS, capped) plus random schedules, each run checked against the property directly and against the model.',
     design='6/C15', technique='Lean 4 invariant proof over schedules of a lock-parametric thread model + systematic schedule enumeration of the real code',
     note='Partial only in the sense of the design: pre-emption is exhibited at the yield points (every transport operation, every poll, '
          'lock acquire/release; the model allows it between any two operations); pre-emption inside a Python bytecode sequence and '
          'GIL effects are not exhibited. Faults are refused connection attempts and replies that never arrive; a reply that arrives '
-         'late is not modelled here (C13). The locks are observed from outside by replacing manager._transaction_lock and '
-         'client._connect_lock with instrumented wrappers around whatever objects the code created. Fixed finding: connect-outside-lock.')
+         'late is not modelled here (C13). The locks are observed by wrapping what the modules call RLock while the client is '
+         'constructed and by replacing manager._transaction_lock and client._connect_lock with instrumented wrappers around whatever '
+         'objects the code created; the back-off is time.sleep inside pymodbus.transaction (virtual time). '
+         'Fixed finding: connect-outside-lock.')
 
 PENDING_REASON = 'check not built yet in this revision (work in progress; planned per DESIGN.md section 6)'
 
